@@ -1,6 +1,6 @@
 (* C02 -- a granted placement has exactly the requested shape.  Statements only. *)
 From Coq Require Import ZArith List Bool.
-From RP Require Import Sched.Model Sched.NodeMap Sched.FindProofs Sched.Inv Sched.SchedProofs Sched.ShapeProofs Sched.ExclProofs.
+From RP Require Import Sched.Model Sched.NodeMap Sched.FindProofs Sched.Inv Sched.SchedProofs Sched.ShapeProofs Sched.ExclProofs Sched.TagMono.
 From Coq Require String.
 From RP Require AppSlots.Model AppSlots.Oracle AppSlots.NodeProofs AppSlots.InvProofs AppSlots.Proofs.
 Import ListNotations.
@@ -101,6 +101,32 @@ Theorem C02_exclusive_tags_on_disjoint_nodes :
     forall x y, In x sl1 -> In y sl2 -> s_node x <> s_node y.
 Proof. exact exclusive_tags_disjoint. Qed.
 Print Assumptions C02_exclusive_tags_on_disjoint_nodes.
+
+(* along EVERY history of arrivals, cancels, releases, named environments and iterations (any bisect strategy):
+   the set of tagged nodes only grows, and in every reachable state it contains the nodes recorded for every tag *)
+Theorem C02_tagged_nodes_only_grow :
+  forall c ops w w', run c w ops = Some w' ->
+    forall i, zmem i (tagged (st w)) = true -> zmem i (tagged (st w')) = true.
+Proof. exact tagged_only_grows. Qed.
+Print Assumptions C02_tagged_nodes_only_grow.
+
+Theorem C02_reachable_tag_nodes_are_tagged :
+  forall c ns ops w', run c (init_world ns) ops = Some w' ->
+    forall tag h, zlookup tag (colo (st w')) = Some h -> forall i, In i h -> zmem i (tagged (st w')) = true.
+Proof. exact reachable_tag_nodes_tagged. Qed.
+Print Assumptions C02_reachable_tag_nodes_are_tagged.
+
+(* hence, in every reachable state: a task with a new exclusive tag is (while an untagged node exists) granted no
+   slot on a node recorded for ANY tag of the history *)
+Theorem C02_reachable_exclusive_avoids_all_tags :
+  forall c ns ops w' t off co tg sl tag,
+    run c (init_world ns) ops = Some w' ->
+    schedule_task c (st w') t = inr (off, co, tg, Some sl) ->
+    r_colo t = Some tag -> zlookup tag (colo (st w')) = None -> r_excl t = true ->
+    (length (tagged (st w')) < length (nodes (st w')))%nat ->
+    forall tag' h, zlookup tag' (colo (st w')) = Some h -> forall x, In x sl -> ~ In (s_node x) h.
+Proof. exact reachable_exclusive_avoids_all_tags. Qed.
+Print Assumptions C02_reachable_exclusive_avoids_all_tags.
 
 (* PARTIAL: placements supplied by the application are passed through as they
    are (their shape is the application's). *)
